@@ -207,6 +207,19 @@ def main():
     # ---------------------------------------------------------------- verdict
     known = load_known(prop)
     open_known = [k for k in known if k["status"] == "open"]
+    # a check may restrict itself to some of the suites its functions feed (e.g. C02 only looks at the
+    # reader suites and at the graph clauses of the oracles), so that a change breaking another property
+    # does not alarm this one
+    sp = info.get("suite_prefixes")
+    cp = info.get("clause_prefixes")
+    if sp:
+        for name in list(ctx.suites):
+            if not any(name.startswith(p) for p in sp):
+                ctx.notes.append(f"suite {name} ran but is not part of this check")
+                del ctx.suites[name]
+    if cp:
+        for s in ctx.suites.values():
+            s.oracle_fails = [f for f in s.oracle_fails if any(f["clause"].startswith(p) for p in cp)]
     evaluations = sum(s.evaluations for s in ctx.suites.values())
     distinct = sum(len(s.distinct) for s in ctx.suites.values())
     mismatches = [m for s in ctx.suites.values() for m in s.mismatches]
